@@ -605,6 +605,8 @@ func c01Alphabet(full bool) []c01Pair {
 		pInsertOne("d", "c", d1), pInsertOne("d", "c", d2), pInsertOne("d", "c", d1dup), pInsertOne("d", "c", dgen), pInsertOne("d", "c", d3),
 		pInsertMany("d", "c", true, bD("_id", i(4), "a", i(4)), d1dup, bD("_id", i(5), "a", i(5))),
 		pInsertMany("d", "c", false, bD("_id", i(4), "a", i(4)), d1dup, bD("_id", i(5), "a", i(5))),
+		// an ordered batch whose second document collides in a secondary unique index (when one exists) after the first went in
+		pInsertMany("d", "c", true, bD("_id", i(23), "a", i(23)), bD("_id", i(24), "a", i(1)), bD("_id", i(25), "a", i(25))),
 		pFind("d", "c", bD(), bD("a", i(-1)), nil, 1, 1),
 		pFind("d", "c", bD("a", bD("$gte", i(2))), nil, nil, 0, 0),
 		pFind("d", "c", bD(), bD("b", i(1), "_id", i(-1)), bD("a", i(1)), 0, 2),
